@@ -88,3 +88,10 @@ Definition ad_init (dim maxd : nat) : adst :=
   mkad [repeat (0, 1) dim] [1%nat] [0%nat] [] [] [] false maxd.
 Definition ad_run (st : adst) (ops : list adop) : adst := fold_left adstep ops st.
 Definition leaves (st : adst) : list nat := aS st ++ aP st ++ aD st.
+
+(* itertools.product over the option lists (generate_child_designs): the first list varies slowest *)
+Fixpoint cart_product {A} (ls : list (list A)) : list (list A) :=
+  match ls with
+  | [] => [[]]
+  | l :: r => flat_map (fun a => map (cons a) (cart_product r)) l
+  end.
